@@ -41,6 +41,63 @@ VERBS = ('OPTIONS', 'HEAD', 'GET', 'PUT', 'PATCH', 'DELETE', 'TRACE',
          'CONNECT', 'M_POST')
 
 
+def _const_chars(expr, mod, depth=0):
+    """the string a constant expression denotes: a literal, a module-level
+    name bound once to such an expression, a concatenation, or
+    ''.join(chr(c) for c in range(A, B)); None if not evident"""
+    if depth > 3:
+        return None
+    s = const_str(expr)
+    if s is not None:
+        return s
+    if isinstance(expr, ast.Name):
+        defs = [st for st in mod.tree.body if isinstance(st, ast.Assign) and
+                any(isinstance(t, ast.Name) and t.id == expr.id
+                    for t in st.targets)]
+        if len(defs) == 1:
+            return _const_chars(defs[0].value, mod, depth + 1)
+        return None
+    if isinstance(expr, ast.BinOp) and isinstance(expr.op, ast.Add):
+        a = _const_chars(expr.left, mod, depth + 1)
+        b = _const_chars(expr.right, mod, depth + 1)
+        return a + b if a is not None and b is not None else None
+    if isinstance(expr, ast.Call) and isinstance(expr.func, ast.Attribute) \
+            and expr.func.attr == 'join' and \
+            const_str(expr.func.value) == '' and len(expr.args) == 1 and \
+            isinstance(expr.args[0], (ast.GeneratorExp, ast.ListComp)):
+        g = expr.args[0]
+        if len(g.generators) == 1 and not g.generators[0].ifs and \
+                isinstance(g.generators[0].target, ast.Name) and \
+                isinstance(g.elt, ast.Call) and dotted(g.elt.func) == 'chr' \
+                and len(g.elt.args) == 1 and \
+                isinstance(g.elt.args[0], ast.Name) and \
+                g.elt.args[0].id == g.generators[0].target.id:
+            it = g.generators[0].iter
+            if isinstance(it, ast.Call) and dotted(it.func) == 'range' and \
+                    1 <= len(it.args) <= 2 and all(
+                        isinstance(a, ast.Constant) and
+                        isinstance(a.value, int) for a in it.args):
+                vals = [a.value for a in it.args]
+                lo, hi = (0, vals[0]) if len(vals) == 1 else vals
+                if 0 <= lo <= hi <= 0x110000:
+                    return ''.join(chr(c) for c in range(lo, hi))
+    return None
+
+
+def quote_safe_chars(call, mod):
+    """the characters urllib.parse.quote() leaves alone in this call, as far
+    as its `safe` argument goes (None: cannot be evaluated)"""
+    safe = ast.Constant(value='/')
+    if len(call.args) > 1:
+        safe = call.args[1]
+    for k in call.keywords:
+        if k.arg == 'safe':
+            safe = k.value
+        elif k.arg is None:
+            return None
+    return _const_chars(safe, mod)
+
+
 def is_resp_stmt(st):
     if isinstance(st, (ast.If, ast.For, ast.While, ast.Try, ast.With)):
         return 0
@@ -100,6 +157,8 @@ def run(repo, rep, tier):
     r1 = rep.rule('C17.R1', 'exactly one response per path')
     r2 = rep.rule('C17.R2', 'no escaping exception before the response')
     r3 = rep.rule('C17.R3', 'header values are single-line')
+    r3b = rep.rule('C17.R3b', 'body-derived header values are escaped to '
+                   'latin-1 encodable text')
     r4 = rep.rule('C17.R4', 'all verbs answered')
     h = repo.cls(LS, 'ListenerRequestHandler')
     post = h.methods.get('do_POST')
@@ -292,6 +351,40 @@ def run(repo, rep, tier):
                                 'sent' % lower)
     if r5.sites == 0:
         raise AnalysisError('do_POST: rfile.read() not found')
+    # ---- R7: requests are handled concurrently --------------------------------
+    # socketserver.ThreadingMixIn only takes effect when it precedes the
+    # server class in the bases (its process_request must win the method
+    # resolution); otherwise one stalled request (Content-Length larger than
+    # the bytes sent) blocks the accept loop and every later indication.
+    r7 = rep.rule('C17.R7', 'the listener server class resolves '
+                  'process_request to the threading mix-in')
+    lmod = repo.module(LS)
+    servers = [c for c in lmod.classes.values()
+               if any('Server' in norm(b) for b in c.node.bases)]
+    if not servers:
+        raise AnalysisError('no HTTP server class in the listener module')
+    for c in servers:
+        r7.sites += 1
+        bases = [norm(b) for b in c.node.bases]
+        mix = [i for i, b in enumerate(bases) if 'ThreadingMixIn' in b or
+               'ForkingMixIn' in b]
+        srv = [i for i, b in enumerate(bases) if b.split('.')[-1] in (
+            'HTTPServer', 'TCPServer', 'BaseServer', 'UnixStreamServer')]
+        own = 'process_request' in c.methods
+        ok = own or (bool(mix) and bool(srv) and min(mix) < min(srv)) or \
+            any(b.split('.')[-1] == 'ThreadingHTTPServer' for b in bases)
+        r7.ob(ok, c.name, {'class': c.name, 'bases': bases})
+        if not ok:
+            rep.finding(r7, c.name, 'class %s(%s)' % (c.name,
+                                                      ', '.join(bases)),
+                        'mixin-order', LS, c.node.lineno,
+                        'the threading mix-in does not precede the server '
+                        'class in the bases, so process_request() resolves '
+                        'to the non-threading BaseServer implementation: '
+                        'requests are handled one at a time in the accept '
+                        'loop and a request that stalls (Content-Length '
+                        'larger than what was sent) blocks all later '
+                        'indications')
     # ---- R6: Content-Length counts the bytes that are written ---------------
     r6 = rep.rule('C17.R6', 'Content-Length is the length of the very bytes '
                   'object written as the body')
@@ -393,7 +486,16 @@ def run(repo, rep, tier):
             if isinstance(x, ast.Call):
                 d = dotted(x.func) or ''
                 last = d.split('.')[-1]
-                if last in ('quote', 'quote_plus', 'urlencode') or \
+                if last in ('quote', 'quote_plus'):
+                    safe = quote_safe_chars(x, lmod)
+                    if safe is None:
+                        raise AnalysisError(
+                            'send_http_error: the safe= set of %s cannot be '
+                            'evaluated' % norm(x, 80))
+                    if '\r' not in safe and '\n' not in safe:
+                        return True
+                    continue
+                if last == 'urlencode' or \
                         'sanit' in last or 'single_line' in last:
                     return True
         txt = norm(expr, 2000)
@@ -442,6 +544,88 @@ def run(repo, rep, tier):
                     % (sinks[p], len(lst), norm(a, 60), t))
     if not sinks:
         raise AnalysisError('send_http_error: header sinks not found')
+    # ---- R3b: header values must be latin-1 encodable ----------------------
+    # BaseHTTPRequestHandler.send_header() encodes the line with
+    # ('latin-1', 'strict').  Request *header* values were decoded from
+    # latin-1 by http.client and are encodable again; text derived from the
+    # request *body* (parser exceptions, parsed values) is arbitrary Unicode
+    # and must pass an escaping step before it reaches send_header().
+    body_tainted = set()
+    for n in walk_no_nested(post.node):
+        if isinstance(n, ast.ExceptHandler) and n.name:
+            body_tainted.add(n.name)
+        if isinstance(n, ast.Assign) and isinstance(n.targets[0], ast.Tuple) \
+                and isinstance(n.value, ast.Call) and \
+                dotted(n.value.func) == 'self.parse_export_request':
+            for x in n.targets[0].elts:
+                if isinstance(x, ast.Name):
+                    body_tainted.add(x.id)
+
+    def latin1_safe(expr):
+        for x in ast.walk(expr):
+            if isinstance(x, ast.Call):
+                d = dotted(x.func) or ''
+                last = d.split('.')[-1]
+                if last in ('quote', 'quote_plus', 'urlencode', 'ascii'):
+                    return True
+                if last == 'encode' and x.args:
+                    enc = (const_str(x.args[0]) or '').lower().replace(
+                        '_', '-')
+                    err = None
+                    if len(x.args) > 1:
+                        err = const_str(x.args[1])
+                    for k in x.keywords:
+                        if k.arg == 'errors':
+                            err = const_str(k.value)
+                    if enc in ('ascii', 'latin-1', 'latin1', 'iso-8859-1',
+                               'us-ascii') and \
+                            err in ('replace', 'backslashreplace',
+                                    'xmlcharrefreplace', 'namereplace',
+                                    'ignore'):
+                        return True
+        return False
+    inner_l1 = set()
+    for p in sinks:
+        for n in walk_no_nested(she.node):
+            if isinstance(n, ast.Assign) and norm(n.targets[0]) == p and \
+                    latin1_safe(n.value):
+                inner_l1.add(p)
+    bad_l1 = {}
+    for c in walk_no_nested(post.node):
+        if not (isinstance(c, ast.Call) and
+                dotted(c.func) == 'self.send_http_error'):
+            continue
+        pairs = [(params[i], a) for i, a in enumerate(c.args)
+                 if i < len(params)] + \
+            [(k.arg, k.value) for k in c.keywords]
+        for pn, a in pairs:
+            if pn not in sinks:
+                continue
+            t = next((x.id for x in ast.walk(a) if isinstance(x, ast.Name)
+                      and x.id in body_tainted), None)
+            if t is None:
+                continue
+            r3b.sites += 1
+            ok = latin1_safe(a) or pn in inner_l1
+            r3b.ob(ok, 'latin1:%s:%s' % (pn, norm(a, 60)),
+                   {'header': sinks[pn], 'body_derived': t})
+            if not ok:
+                bad_l1.setdefault(pn, []).append((a, t))
+    r3b.functions.update([she.fq, post.fq])
+    for pn, lst in sorted(bad_l1.items()):
+        a, t = lst[0]
+        rep.finding(r3b, she.qualname, '%s <- %s' % (sinks[pn], pn),
+                    'latin1', LS, she.node.lineno,
+                    'text derived from the request body reaches the %s '
+                    'header value without an escaping step (%d call sites in '
+                    'do_POST, e.g. %s from %r): send_header() encodes the '
+                    'line as latin-1/strict, so a request whose error message '
+                    'contains a character above U+00FF (e.g. a '
+                    'PROTOCOLVERSION of U+20AC) raises UnicodeEncodeError in '
+                    'the handler and the connection is dropped without a '
+                    'response' % (sinks[pn], len(lst), norm(a, 60), t))
+    if r3b.sites < 1:
+        raise AnalysisError('do_POST: no body-derived header text found')
     # ---- R4 ---------------------------------------------------------------
     inv = h.methods.get('invalid_method')
     ok = inv is not None and any(
